@@ -48,6 +48,90 @@ func sliceEq(a, b []byte) bool {
 }
 
 // ---------------------------------------------------------------------------
+// constant.go (C02): the int64 fast path of constant arithmetic. In these
+// contracts 64-bit arithmetic inside a specification is mathematical (exact,
+// unbounded); the code's own arithmetic wraps (opt wrap64).
+// ---------------------------------------------------------------------------
+
+func specIsInt64(c constant) bool { _, ok := c.(int64Const); return ok }
+func specInt64(c constant) int64  { return int64(c.(int64Const)) }
+func specIsBool(c constant) bool  { _, ok := c.(boolConst); return ok }
+func specBool(c constant) bool    { return bool(c.(boolConst)) }
+
+// specFits64 is meaningful only to the verifier, where x is an exact integer.
+func specFits64(x int64) bool { return -9223372036854775808 <= x && x <= 9223372036854775807 }
+
+// isUnsignedKind: the kinds maxUnsigned/maxBigUnsigned are called with.
+func specUnsignedKind(k reflect.Kind) bool { return reflect.Uint <= k && k <= reflect.Uintptr }
+
+//@ func maxUnsigned
+//@   props C02 C04
+//@   requires specUnsignedKind(kind)
+//@   ensures kind == reflect.Uint8 ==> result == 255
+//@   ensures kind == reflect.Uint16 ==> result == 65535
+//@   ensures kind == reflect.Uint32 ==> result == 4294967295
+//@   ensures kind == reflect.Uint || kind == reflect.Uint64 || kind == reflect.Uintptr ==> result == 18446744073709551615
+
+//@ func maxBigUnsigned
+//@   props C02 C04
+//@   requires specUnsignedKind(kind)
+
+//@ func isSigned
+//@   props C02
+//@   ensures result == (kind == reflect.Int || kind == reflect.Int8 || kind == reflect.Int16 || kind == reflect.Int32 || kind == reflect.Int64)
+
+// intConst.binaryOp never answers with the int64 representation (it returns
+// intConst, boolConst or nil; its delegation target is a big-number constant).
+//@ func intConst.binaryOp
+//@   props C02
+//@   trusted
+//@   ensures !specIsInt64(result)
+
+// Fast path: for two int64 constants the result returned as an int64Const is
+// the exact result, and an int64Const is returned exactly when the exact result
+// fits 64 bits (otherwise the big-integer implementation decides).
+//@ func int64Const.binaryOp
+//@   props C02
+//@   opt wrap64 on
+//@   ensures specIsInt64(c2) && op == ast.OperatorAddition && specFits64(int64(c1)+specInt64(c2)) ==> result1 == nil && specIsInt64(result) && specInt64(result) == int64(c1)+specInt64(c2)
+//@   ensures specIsInt64(c2) && op == ast.OperatorAddition && !specFits64(int64(c1)+specInt64(c2)) ==> !specIsInt64(result)
+//@   ensures specIsInt64(c2) && op == ast.OperatorSubtraction && specFits64(int64(c1)-specInt64(c2)) ==> result1 == nil && specIsInt64(result) && specInt64(result) == int64(c1)-specInt64(c2)
+//@   ensures specIsInt64(c2) && op == ast.OperatorSubtraction && !specFits64(int64(c1)-specInt64(c2)) ==> !specIsInt64(result)
+//@   ensures specIsInt64(c2) && op == ast.OperatorMultiplication && specFits64(int64(c1)*specInt64(c2)) ==> result1 == nil && specIsInt64(result) && specInt64(result) == int64(c1)*specInt64(c2)
+//@   ensures specIsInt64(c2) && op == ast.OperatorMultiplication && !specFits64(int64(c1)*specInt64(c2)) ==> !specIsInt64(result)
+//@   ensures specIsInt64(c2) && (op == ast.OperatorDivision || op == ast.OperatorModulo) && specInt64(c2) == 0 ==> result == nil && result1 == errDivisionByZero
+//@   ensures specIsInt64(c2) && op == ast.OperatorLess ==> result1 == nil && specIsBool(result) && specBool(result) == (int64(c1) < specInt64(c2))
+//@   ensures specIsInt64(c2) && op == ast.OperatorEqual ==> result1 == nil && specIsBool(result) && specBool(result) == (int64(c1) == specInt64(c2))
+//@   ensures specIsInt64(c2) && op == ast.OperatorGreaterEqual ==> result1 == nil && specIsBool(result) && specBool(result) == (int64(c1) >= specInt64(c2))
+
+// unaryOp: -c is exact (MinInt64 goes to the big-integer form); ^c for a
+// signed kind is exact; every table index is in range.
+//@ func int64Const.unaryOp
+//@   props C02
+//@   opt wrap64 on
+//@   opt puremethods Kind
+//@   requires typ != nil
+//@   requires op == ast.OperatorXor ==> isSigned(typ.Kind()) || specUnsignedKind(typ.Kind())
+//@   ensures op == ast.OperatorSubtraction && int64(c1) != -9223372036854775808 ==> result1 == nil && specIsInt64(result) && specInt64(result) == -int64(c1)
+//@   ensures op == ast.OperatorSubtraction && int64(c1) == -9223372036854775808 ==> !specIsInt64(result)
+//@   ensures op == ast.OperatorAddition ==> result1 == nil && specIsInt64(result) && specInt64(result) == int64(c1)
+
+// representedBy: succeeds exactly when the value lies in the target type's range.
+//@ func int64Const.representedBy
+//@   props C02
+//@   opt puremethods Kind
+//@   requires typ != nil
+//@   ensures typ.Kind() == reflect.Int8 ==> (result1 == nil) == (-128 <= int64(c1) && int64(c1) <= 127)
+//@   ensures typ.Kind() == reflect.Int16 ==> (result1 == nil) == (-32768 <= int64(c1) && int64(c1) <= 32767)
+//@   ensures typ.Kind() == reflect.Int32 ==> (result1 == nil) == (-2147483648 <= int64(c1) && int64(c1) <= 2147483647)
+//@   ensures typ.Kind() == reflect.Int || typ.Kind() == reflect.Int64 ==> result1 == nil
+//@   ensures typ.Kind() == reflect.Uint8 ==> (result1 == nil) == (0 <= int64(c1) && int64(c1) <= 255)
+//@   ensures typ.Kind() == reflect.Uint16 ==> (result1 == nil) == (0 <= int64(c1) && int64(c1) <= 65535)
+//@   ensures typ.Kind() == reflect.Uint32 ==> (result1 == nil) == (0 <= int64(c1) && int64(c1) <= 4294967295)
+//@   ensures typ.Kind() == reflect.Uint || typ.Kind() == reflect.Uint64 || typ.Kind() == reflect.Uintptr ==> (result1 == nil) == (0 <= int64(c1))
+//@   ensures result1 == nil && typ.Kind() >= reflect.Int && typ.Kind() <= reflect.Uintptr ==> specIsInt64(result) && specInt64(result) == int64(c1)
+
+// ---------------------------------------------------------------------------
 // builder.go (C20): a limit is reported by a LimitExceededError panic (allowed,
 // it is recovered by emitProgram/emitTemplate), never by a wrapped index.
 // ---------------------------------------------------------------------------
